@@ -15,6 +15,8 @@ import (
 	"fmt"
 	"io"
 	"net"
+	"os"
+	"path/filepath"
 	"sort"
 	"sync"
 	"sync/atomic"
@@ -451,6 +453,13 @@ func TestVerifC12HolePunchHostContract(t *testing.T) {
 				res.Inc("newstream-rode-"+rode, 1)
 			})
 		}
+	}
+	// the replay test of this package owns <out>/result.json
+	if out := vfh.Out(); out != "" {
+		sub := filepath.Join(out, "host")
+		os.MkdirAll(sub, 0o755)
+		os.Setenv("VERIF_OUT", sub)
+		defer os.Setenv("VERIF_OUT", out)
 	}
 	if err := res.Write(); err != nil {
 		t.Fatal(err)
